@@ -5,7 +5,7 @@ from pyvc import values as V, tensor as T
 from pyvc.contracts import Contract, Invariant, contract, invariant, Forall
 from pyvc.tensor import FLOAT, INT, STensor
 
-from .common import gaussian, grid_len, sqdist, in_unit_interval, finite
+from .common import gaussian, grid_len, sqdist, in_unit_interval, finite, exists_below, forall_below
 
 
 @contract
@@ -38,6 +38,7 @@ def _conf_inputs(c, rank4=False, multi=False):
 
 @contract
 class MakeConfmaps(Contract):
+    rand_ranges = {"S": (1, 2), "N": (1, 3), "Hg": (2, 8), "Wg": (2, 8), "sigma": (0.6, 3.0), "points": (-2.0, 9.0), "xv": (0.0, 8.0), "yv": (0.0, 8.0)}
     target = "sleap_nn.data.confidence_maps.make_confmaps"
     props = ("C01", "C18", "C11")
     dims = ("S", "N", "Hg", "Wg")
@@ -85,14 +86,12 @@ def multi_clauses(out, pts, gx, gy, sigma, k):
         return V.b_and(V.f_le(0.0, v), V.f_le(v, 1.0))
 
     def upper(n, i, j):
-        m = z3.Int(V.fresh_name("m"))
         v = o([0, n, i, j])
-        return z3.ForAll([m], V.zbool(V.b_implies(V.b_and(m >= 0, V.i_lt(m, k)), V.f_le(g(m, n, i, j), v))))
+        return forall_below(k, lambda m: V.f_le(g(m, n, i, j), v))
 
     def attained(n, i, j):
-        m = z3.Int(V.fresh_name("m"))
         v = o([0, n, i, j])
-        return V.b_or(V.f_same(v, 0.0), z3.Exists([m], V.zbool(V.b_and(m >= 0, V.i_lt(m, k), V.f_same(v, g(m, n, i, j))))))
+        return V.b_or(V.f_same(v, 0.0), exists_below(k, lambda m: V.f_same(v, g(m, n, i, j))))
 
     sh = [N, out.shape[2], out.shape[3]]
     return [("range", Forall(sh, lower)), ("upper", Forall(sh, upper)), ("attained", Forall(sh, attained))]
@@ -100,6 +99,8 @@ def multi_clauses(out, pts, gx, gy, sigma, k):
 
 @contract
 class MakeMultiConfmaps(Contract):
+    rand_ranges = {"I": (0, 3), "N": (1, 3), "Hg": (2, 8), "Wg": (2, 8), "sigma": (0.6, 3.0), "points": (-2.0, 9.0), "xv": (0.0, 8.0), "yv": (0.0, 8.0)}
+    level = "property"   # its ensures clauses are the property's "per-cell maximum over animals"
     target = "sleap_nn.data.confidence_maps.make_multi_confmaps"
     props = ("C01", "C18", "C11")
     functional = False
@@ -154,11 +155,16 @@ class MakeMultiConfmapsLoop(Invariant):
         return multi_clauses(cms, pts, lambda j: gx([j]), lambda i: gy([i]), env["sigma"], k)
 
 
+RAND = {"S": (1, 2), "I": (0, 3), "N": (1, 3), "H": (4, 12), "W": (4, 12), "Hg": (2, 8), "Wg": (2, 8), "stride": (1, 3), "sigma": (0.6, 3.0),
+        "points": (-2.0, 11.0), "instance": (-2.0, 11.0), "instances": (-2.0, 11.0), "xv": (0.0, 8.0), "yv": (0.0, 8.0), "num_instances": (0, 4)}
+
+
 class _GenBase(Contract):
     level = "property"
     props = ("C01", "C11")
     dims = ("S", "I", "N", "H", "W", "stride")
     dim_ranges = {"stride": (1, 3)}
+    rand_ranges = RAND
 
 
 @contract
@@ -300,14 +306,12 @@ class GenerateMulticonfmaps(_GenBase):
             return V.b_and(in_unit_interval(v), finite(v))
 
         def upper(n, i, j):
-            m = z3.Int(V.fresh_name("m"))
             v = o([0, n, i, j])
-            return z3.ForAll([m], V.zbool(V.b_implies(V.b_and(m >= 0, V.i_lt(m, k)), V.f_le(g(m, n, i, j), v))))
+            return forall_below(k, lambda m: V.f_le(g(m, n, i, j), v))
 
         def attained(n, i, j):
-            m = z3.Int(V.fresh_name("m"))
             v = o([0, n, i, j])
-            return V.b_or(V.f_same(v, 0.0), z3.Exists([m], V.zbool(V.b_and(m >= 0, V.i_lt(m, k), V.f_same(v, g(m, n, i, j))))))
+            return V.b_or(V.f_same(v, 0.0), exists_below(k, lambda m: V.f_same(v, g(m, n, i, j))))
 
         H, W = img_hw
         sh = [N, grid_len(H, s), grid_len(W, s)]
